@@ -67,7 +67,7 @@ def _require_followed(repo, fi, leaves, what):
         v = l.value
         if isinstance(v, ast.Call):
             callee = callee_of(repo, fi, v)
-            if callee is not None and callee.name.startswith('_') and (l.opaque or True):
+            if callee is not None and callee.name.startswith('_'):
                 raise AnalysisError('%s: %s is computed by %s, which could not be followed' % (fi.qualname, what, callee.qualname))
 
 
@@ -519,12 +519,6 @@ class KwDict(object):
                     return ('default', v.args[1], self.layers[top][3])
             return ('unknown', None, None)
         return ('forced', v, self.layers[top][3])
-
-
-def _walk_all(fnode):
-    for st in fnode.body:
-        for n in ast.walk(st):
-            yield n
 
 
 def _enclosing_iteration(mod, node, fnode):
@@ -1087,9 +1081,24 @@ def _r10e_render(rep, app, route):
     rep.check('R10.e', fkey(bi, 'self.render'), ok, 'the selected renderer is stored and used for the chain' if ok else 'self.render is not the selected renderer', route, bi.node)
 
 
+def _safe(fn):
+    """A Python exception inside a rule group is an analysis gap of that group, never a crash of the check."""
+    def wrapped(*a, **k):
+        try:
+            return fn(*a, **k)
+        except AnalysisError:
+            raise
+        except Exception as e:      # pragma: no cover
+            raise AnalysisError('internal error in rule group %s: %s: %s' % (fn.__name__, type(e).__name__, e))
+    wrapped.__name__ = getattr(fn, '__name__', 'rule group')
+    return wrapped
+
+
 def run(rep):
     repo = rep.repo
     app, route = repo.mod(APP), repo.mod(ROUTE)
+    _guard = rep.guard
+    rep_guard = lambda fn, *a, **k: _guard(_safe(fn), *a, **k)
     rep.decide('R10.a every inner route re-bound in order with the prefix; R10.b prefix composition; R10.c middleware / '
                'resource precedence; R10.d outer error handling; R10.e renderer / slash plumbing')
     rep.decline('response equivalence nested vs flat (behavioural); render_factory selection as a value computation')
@@ -1102,27 +1111,27 @@ def run(rep):
     # ---- R10.a -----------------------------------------------------------
     def bind_all_rules():
         return _r10a(rep, app, route)
-    kd = rep.guard(bind_all_rules)
+    kd = rep_guard(bind_all_rules)
 
     def cast_rule():
         _r10a_cast(rep, app)
-    rep.guard(cast_rule)
+    rep_guard(cast_rule)
 
     def running_index():
         from .c06 import check_running_index
         check_running_index(rep, 'R10.a')
-    rep.guard(running_index)
+    rep_guard(running_index)
 
     def add_uses_bind_all():
         _r10a_add(rep, app)
-    rep.guard(add_uses_bind_all)
-    rep.guard(rep.floor, 'R10.a', 7)
+    rep_guard(add_uses_bind_all)
+    rep_guard(rep.floor, 'R10.a', 7)
 
     # ---- R10.b -----------------------------------------------------------
     def prefix_rules():
         _r10b(rep, app, route)
-    rep.guard(prefix_rules)
-    rep.guard(rep.floor, 'R10.b', 6)
+    rep_guard(prefix_rules)
+    rep_guard(rep.floor, 'R10.b', 6)
 
     # ---- R10.c -----------------------------------------------------------
     def merge_order():
@@ -1134,16 +1143,16 @@ def run(rep):
     def slash_plumbing():
         from .c07 import check_slash_plumbing
         check_slash_plumbing(rep, 'R10.c')
-    rep.guard(merge_order)
-    rep.guard(request_layers)
-    rep.guard(slash_plumbing)
-    rep.guard(rep.floor, 'R10.c', 24)
+    rep_guard(merge_order)
+    rep_guard(request_layers)
+    rep_guard(slash_plumbing)
+    rep_guard(rep.floor, 'R10.c', 24)
 
     # ---- R10.d -----------------------------------------------------------
     def error_handling_rules():
         _r10d(rep, app, route)
-    rep.guard(error_handling_rules)
-    rep.guard(rep.floor, 'R10.d', 7)
+    rep_guard(error_handling_rules)
+    rep_guard(rep.floor, 'R10.d', 7)
 
     # ---- R10.e -----------------------------------------------------------
     def kwarg_agreement():
@@ -1155,7 +1164,7 @@ def run(rep):
 
     def render_selection():
         _r10e_render(rep, app, route)
-    rep.guard(kwarg_agreement)
-    rep.guard(render_plumbing)
-    rep.guard(render_selection)
-    rep.guard(rep.floor, 'R10.e', 12)
+    rep_guard(kwarg_agreement)
+    rep_guard(render_plumbing)
+    rep_guard(render_selection)
+    rep_guard(rep.floor, 'R10.e', 12)
